@@ -770,7 +770,8 @@ class ASTListener(ModelicaListener):
         self.ast[ctx] = self.ast[ctx.string_comment()]
 
     def exitString_comment(self, ctx: ModelicaParser.String_commentContext):
-        self.ast[ctx] = ctx.getText()[1:-1]
+        # "abc" + "def" is the comment abcdef
+        self.ast[ctx] = "".join(s.getText()[1:-1] for s in ctx.STRING())
 
     # ANNOTATIONS ==========================================================
 
